@@ -23,7 +23,8 @@ pub struct Case {
 }
 
 fn seps(tier: Tier) -> Vec<(&'static str, &'static str)> {
-    tier.pick(vec![(",", "."), (".", ",")], vec![(",", "."), (".", ","), (".", ""), (",", "")])
+    let _ = tier;
+    vec![(",", "."), (".", ","), (".", ""), (",", "")]
 }
 
 fn cfg_of(dec: &str, thou: &str, digits: u8) -> Cfg {
@@ -31,6 +32,19 @@ fn cfg_of(dec: &str, thou: &str, digits: u8) -> Cfg {
     c.num = Some((digits, true, true));
     c.pct = Some((digits, true, true));
     c
+}
+
+fn number_grid() -> Vec<f64> {
+    let mut v = vec![0.0, 1.0, 0.5, 2.5, 12.345, 999.995, 1234.5, 1000000.0, 0.001, 123456789.125, 1e15, 0.045, 0.004, 0.005, 0.995, 9.995, 99.5, 999.5, 999.4999, 999999.995, 0.05, 0.15, 1.005, 2.675, 0.1, 0.3, 10.1, 9007199254740992.0];
+    let mut n = 0.0;
+    for i in 1..=13 {
+        n = n * 10.0 + (i % 10) as f64;
+        v.push(n);
+        v.push(n + 0.25);
+    }
+    let neg: Vec<f64> = v.iter().filter(|x| **x != 0.0).map(|x| -*x).collect();
+    v.extend(neg);
+    v
 }
 
 fn fx(x: f64) -> String {
@@ -53,9 +67,9 @@ impl Prop for C15 {
             f.push(Family::new(
                 kind,
                 Mode::Full,
-                &format!("[{}:x] for x in [0, 1, -1, 0.5, -2.5, 12.345, 999.995, 1234.5, 1000000, 0.001, 123456789.125, 1e15, 0.045, -0.004] x separator pairs {:?} x digits {:?} x every language: the printed form typed back in prints the same", atom, sp, digits),
+                &format!("[{}:x] for x in a {}-value grid (0, +-1, halves, rounding boundaries 0.005 / 0.995 / 999.5 / 999.995 / 999999.995, sub-unit values, integers of 1..13 digits, 2^53, both signs) x separator pairs {:?} x digits {:?} x every language: the printed form typed back in prints the same", atom, number_grid().len(), sp, digits),
                 move |ch| {
-                    let x = *ch.pick(&[0.0, 1.0, -1.0, 0.5, -2.5, 12.345, 999.995, 1234.5, 1000000.0, 0.001, 123456789.125, 1e15, 0.045, -0.004]);
+                    let x = *ch.pick(&number_grid());
                     let (dec, thou) = *ch.pick(&sp);
                     let d = *ch.pick(&digits);
                     let l = ch.pick(&langs).clone();
@@ -85,7 +99,7 @@ impl Prop for C15 {
         }
         // durations --------------------------------------------------------------------------
         {
-            let mut mags: Vec<i64> = (1..=tier.pick(130i64, 4000)).collect();
+            let mut mags: Vec<i64> = (1..=tier.pick(1000i64, 4000)).collect();
             for u in dur::UNITS {
                 for k in [1i64, 2, 3, 11, 12, 13] {
                     let m = k * u.len();
@@ -100,7 +114,7 @@ impl Prop for C15 {
             f.push(Family::new(
                 "duration",
                 Mode::Full,
-                &format!("{} magnitudes (1..={} s, +-1 s around 1, 2, 3, 11, 12, 13 times every unit, mixed) written as 'S seconds' (language's own word) in every language", mags.len(), tier.pick(130, 4000)),
+                &format!("{} magnitudes (1..={} s, +-1 s around 1, 2, 3, 11, 12, 13 times every unit, mixed) written as 'S seconds' (language's own word) in every language", mags.len(), tier.pick(1000, 4000)),
                 move |ch| {
                     let l = ch.pick(&langs).clone();
                     let s = *ch.pick(&mags);
@@ -112,7 +126,7 @@ impl Prop for C15 {
         // times with zones -----------------------------------------------------------------
         {
             let zones: Vec<String> = match tier {
-                Tier::Quick => spec().usable_zones().into_iter().map(|(n, _)| n).step_by(6).collect(),
+                Tier::Quick => spec().usable_zones().into_iter().map(|(n, _)| n).step_by(2).collect(),
                 Tier::Thorough => spec().usable_zones().into_iter().map(|(n, _)| n).collect(),
             };
             let nz = zones.len();
